@@ -25,8 +25,19 @@ ALPHA_S = ("start", "stop", "rel", "fail", "cancel", "cgroup", "call", "flush", 
 NOP = len(ALPHA) - 1
 
 
+def tpl_lossi(size, cb, x1, i0, i1, i2, x2, a2, t, _twin=False):
+    """Same clauses; the first three workers to start may finish inside their very first step (i_k: 0 = block on the
+    gate, 1 = return at once, 2 = raise at once): a task that ends without ever having been suspended."""
+    return _loss(size, cb, x1, x2, a2, NOP, 0, NOP, 0, t, _twin, [i0, i1, i2])
+
+
 def tpl_loss(size, cb, x1, x2, a2, x3, a3, x4, a4, t, _twin=False):
-    w = World("c02.loss")
+    return _loss(size, cb, x1, x2, a2, x3, a3, x4, a4, t, _twin, [])
+
+
+def _loss(size, cb, x1, x2, a2, x3, a3, x4, a4, t, _twin, instant):
+    w = World("c02.lossi" if instant else "c02.loss")
+    w.instant = list(instant)
     code = 0
     try:
         simple = x1 == 3
@@ -64,7 +75,10 @@ def tpl_loss(size, cb, x1, x2, a2, x3, a3, x4, a4, t, _twin=False):
         if not code and not w.excluded:
             code = _final(w, it, pool, size, cb, simple)
         if _twin and not code and not w.excluded:
-            if len(w.W) >= 3 and any(r["state"] == "cancelled" for r in w.W):
+            if instant:
+                if len(w.W) >= 3 and sum(1 for r in w.W if r.get("instant")) >= 2:
+                    code = 77
+            elif len(w.W) >= 3 and any(r["state"] == "cancelled" for r in w.W):
                 code = 77
         return code
     finally:
@@ -88,6 +102,7 @@ def _final(w, it, pool, size, cb, simple):
     if pool._closed.is_set():
         return 0          # closed for good: no capacity left to probe
     before = len(w.W)
+    del w.instant[:]
     pool.unlock()
     if simple:
         pool.start(size + 1)
@@ -115,6 +130,19 @@ def families(tier):
     else:
         pre = base + ["0 <= size <= 3", "0 <= x3 <= %d" % NOP, "a3 >= -1", "x4 == %d" % NOP, "a4 == 0"]
         parts = refine(parts_product(cb=(1, 3), x1=range(4), x2=range(NOP)), ["x2 == 0", "x2 == 1"], "x3", range(NOP + 1))
-    return [Family(name="loss", fn="tpl_loss", params=P, pre=pre, parts=parts,
+    fams = [Family(name="loss", fn="tpl_loss", params=P, pre=pre, parts=parts,
                    twin_pre=["cb == 3", "x1 == 0", "x2 == 0", "x3 == 4", "x4 == %d" % NOP],
                    twin_args=[2, 3, 0, 0, 2, 4, 0, NOP, 0, 5])]
+    PI = ["size", "cb", "x1", "i0", "i1", "i2", "x2", "a2", "t"]
+    prei = ["0 <= cb <= 3", "0 <= x1 <= 3", "0 <= i0 <= 2", "0 <= i1 <= 2", "0 <= i2 <= 2", "i0 + i1 + i2 > 0",
+            "0 <= x2 <= %d" % NOP, "a2 >= -1", "t >= 0"]
+    if not thorough:
+        prei += ["1 <= size <= 2", "cb == 3", "t >= 4", "a2 <= 1", "x2 == 0 or x2 == 4 or x2 == 7 or x2 == %d" % NOP]
+        partsi = parts_product(x1=range(4), i0=range(3), i1=range(3))
+    else:
+        prei += ["0 <= size <= 3"]
+        partsi = parts_product(cb=(0, 1, 3), x1=range(4), i0=range(3), i1=range(3))
+    fams.append(Family(name="lossi", fn="tpl_lossi", params=PI, pre=prei, parts=partsi,
+                       twin_pre=["cb == 3", "x1 == 2", "i0 == 1", "i1 == 2", "x2 == %d" % NOP],
+                       twin_args=[2, 3, 2, 1, 2, 0, NOP, 0, 5]))
+    return fams
